@@ -213,6 +213,17 @@ pub fn templates() -> Vec<(String, Module)> {
         let kf = func(&["key", "value"], vec![sv("k", C::CreateTable), C::Repeat { n: b(C::Len(b(rv("value")))), i: Some("i".into()), body: b(C::Append(b(rv("i")), b(rv("k")))) }, C::Return(b(rv("k")))]);
         t(&format!("std-{f}-fresh-table-key"), c, vec![("kf", kf)]);
     }
+    // a key function returning the identical object for every row (the native guards it once per row)
+    for f in ["min_by_key", "max_by_key", "sorted_by_key"] {
+        let mut c = strings.clone();
+        c.insert(0, sg("shared", s("one shared key object")));
+        c.push(sg("r", call(&format!("std.{f}"), vec![C::Function("kf".into()), rv("t")])));
+        c.push(sg("j", s("junk")));
+        c.push(log2("r", rv("r")));
+        c.push(sg("shared", int(0)));
+        c.push(sg("j2", s("more junk")));
+        t(&format!("std-{f}-same-key-object-for-every-row"), c, vec![("kf", func(&["key", "value"], vec![C::Return(b(rv("shared")))]))]);
+    }
     for f in ["filter", "map", "any"] {
         let mut c = strings.clone();
         c.push(sg("r", call(&format!("std.{f}"), vec![C::Function("cb".into()), rv("t")])));
